@@ -92,9 +92,12 @@ def pathKind (sym : String) : PathKind :=
 /-- `os.OpenFile(path, O_RDONLY)` succeeds (directories open too) -/
 def readable (sym : String) : Bool := pathKind sym != .missing
 
-/-- a file can be created at the path (`os.Create` of the CPU profile) -/
-def creatable (sym : String) : Bool :=
-  !(sym = "noprofdir" || sym = "nested" || pathKind sym == .dir)
+/-- the directory the path lies in exists (`os.Stat(filepath.Dir(path))` answers with a directory) -/
+def parentIsDirectory (sym : String) : Bool := !(sym = "noprofdir" || sym = "nested")
+
+/-- a file can be created at the path (`os.Create` of the CPU profile): its directory exists and the
+path itself is no directory -/
+def creatable (sym : String) : Bool := parentIsDirectory sym && pathKind sym != .dir
 
 /-- per data set and decision variable: limits `≤ bind` are certain to stop the random initialisation
 before its last attempt; limits `≥ never` can never be violated.  Extracted from the running Go model. -/
@@ -141,10 +144,14 @@ structure Repairs where
   loopInvariantGuarded : Bool := false
   /-- new: `Runner.runScenario` caps the concurrency guard at the number of runs -/
   concurrencyCapped : Bool := false
-  /-- new: `checkMandatoryFields` demands `RunNumber <= 1,000,000` -/
+  /-- new: `checkMandatoryFields` demands `RunNumber <= 2147483647` (math.MaxInt32: the counter of the
+  `sync.WaitGroup` the runner waits on is 32 bits wide; every wrapped negative is far above it) -/
   runNumberBounded : Bool := false
   /-- new: `ScenarioConfigInterpreter` rejects an `OutputPath` that exists and is not a directory -/
   outputPathChecked : Bool := false
+  /-- new: `ScenarioConfigInterpreter` rejects a `CpuProfilePath` whose parent is no existing directory
+  (a path that itself names a directory is still accepted: crem's own interpreter test passes one) -/
+  cpuProfilePathChecked : Bool := false
   deriving DecidableEq, Repr
 
 /-! ## loading: TOML value types against Go field types (BurntSushi/toml v0.3.1 `unify`) -/
@@ -295,10 +302,13 @@ inductive LoadErr
   | mandatory (fields : List String)     -- "Missing mandatory configuration"
   deriving DecidableEq, Repr
 
+/-- the largest `RunNumber` the repaired `checkMandatoryFields` takes (`maximumRunNumber` = 2^31 - 1) -/
+def maxRunNumber : Nat := 2147483647
+
 /-- `checkMandatoryFields` -/
 def mandatoryMissing (r : Repairs) (l : Loaded) : List String :=
   (if l.name = .str "" then ["Name"] else []) ++
-  (if l.runNumber < 1 ∨ (r.runNumberBounded = true ∧ 1000000 < l.runNumber) then ["RunNumber"] else []) ++
+  (if l.runNumber < 1 ∨ (r.runNumberBounded = true ∧ maxRunNumber < l.runNumber) then ["RunNumber"] else []) ++
   (if r.reportEveryChecked = true ∧ l.reportEvery < 1 then ["ReportEvery"] else []) ++
   (if l.annealerType = "" then ["AnnealerType"] else []) ++
   (if l.modelType = .str "" then ["ModelType"] else [])
@@ -467,12 +477,14 @@ def annealerErr (l : Loaded) : Bool :=
 def validDestinations : List String := ["StandardOutput", "StandardError", "Discarded"]
 
 /-- ScenarioConfigInterpreter → ReportingConfigInterpreter → LoggingConfigInterpreter:
-every log level destination must be recognised (level names are free) -/
+every log level destination must be recognised (level names are free); (repairs) the output path is
+no existing non-directory; the directory of the CPU profile file exists -/
 def scenarioErr (r : Repairs) (l : Loaded) : Bool :=
   (!l.logDest.all fun kv => match kv.2 with
     | .str s => validDestinations.contains s
     | _ => false) ||
-  (r.outputPathChecked && (match l.outputPath with | .path p => pathKind p == .file | _ => false))
+  (r.outputPathChecked && (match l.outputPath with | .path p => pathKind p == .file | _ => false)) ||
+  (r.cpuProfilePathChecked && (match l.cpuProfilePath with | .path p => !parentIsDirectory p | _ => false))
 
 /-! ## what the run reads -/
 
@@ -576,9 +588,11 @@ crem fcd5efe and is no site any more.)
 * `realModel` (R) archive.ModelCompressor.Compress(NullModel): NameMappedVariables() is nil
 * `outputPath` (R) scenario.Saver.ensureExistingOutputPathIsUsable: panics when the path is not a directory
 * `runNumber`    scenario.Runner.runScenario: `runWaitGroup.Add(int(runNumber))` panics for values ≥ 2^63
-                 (a negative TOML integer wraps)
+                 (a negative TOML integer wraps).  The repair bounds the field by 2^31 - 1 (`maxRunNumber`), the
+                 capacity of the WaitGroup's 32-bit counter, which excludes every wrapped negative
 * `concurrency`  `make(chan struct{}, maxConcurrentRuns)` panics likewise
 * `cpuProfile`   profiling.CpuProfileOfFunctionToFile: the run is never started when the file cannot be created
+                 (its directory is missing, or the path names a directory)
 * `platform`     OutputType EXCEL needs OLE (Windows only); excluded from generator and claim -/
 structure RunSafe (r : Repairs) (env : Env) (l : Loaded) : Prop where
   modulo : l.reportEvery ≠ 0 ∨ annealingDiscarded l = true ∨ maxIterations l = 0
@@ -703,10 +717,18 @@ def ConcurrencyOutOfRange (c : Cfg) : Bool :=
   | some (.int i) => decide (9223372036854775808 ≤ toUint64 i)
   | _ => false
 
-/-- new: `CpuProfilePath` where no file can be created: `Run()` returns an error value, nothing runs -/
+/-- new: `CpuProfilePath` in a directory that does not exist: `Run()` returns the create error, nothing runs -/
 def CpuProfilePathNotCreatable (c : Cfg) : Bool :=
   match get c .scenario "CpuProfilePath" with
-  | some (.path p) => !creatable p
+  | some (.path p) => !parentIsDirectory p
+  | _ => false
+
+/-- new: `CpuProfilePath` names an existing directory: likewise (accepted also after the repair of the
+previous finding: crem's own TestConfigInterpreter_ProfilingScenario_HasProfilingRunner passes a directory
+and demands that it is accepted) -/
+def CpuProfilePathIsDirectory (c : Cfg) : Bool :=
+  match get c .scenario "CpuProfilePath" with
+  | some (.path p) => pathKind p == .dir
   | _ => false
 
 /-- platform exclusion, not a finding -/
@@ -725,8 +747,22 @@ def findingNames (r : Repairs) (env : Env) (c : Cfg) : List String :=
   (if !r.outputPathChecked && OutputPathNotADirectory c then ["OutputPathNotADirectory"] else []) ++
   (if !r.runNumberBounded && RunNumberOutOfRange c then ["RunNumberOutOfRange"] else []) ++
   (if !r.concurrencyCapped && ConcurrencyOutOfRange c then ["ConcurrencyOutOfRange"] else []) ++
-  (if CpuProfilePathNotCreatable c then ["CpuProfilePathNotCreatable"] else []) ++
+  (if !r.cpuProfilePathChecked && CpuProfilePathNotCreatable c then ["CpuProfilePathNotCreatable"] else []) ++
+  (if CpuProfilePathIsDirectory c then ["CpuProfilePathIsDirectory"] else []) ++
   (if ExcelOutput c then ["ExcelOutput"] else [])
+
+/-- the findings whose repair is DECLARED and whose predicate holds of the configuration.  With the repair
+really in the tree such a configuration is rejected or its site is guarded (`repaired_findings_rejected`,
+`accept_safe_partial`); the driver lists them so that a crash at such a site - the declared repair is
+missing or no longer effective - is reported under the finding's own signature. -/
+def repairedNames (r : Repairs) (c : Cfg) : List String :=
+  (if r.reportEveryChecked && ReportingModuloZero c then ["ReportingModuloZero"] else []) ++
+  (if r.objectiveChecked && ObjectiveNotOffered c then ["ObjectiveNotOffered"] else []) ++
+  (if r.loopInvariantGuarded && LoopInvariantWithMultiObjective c then ["LoopInvariantWithMultiObjective"] else []) ++
+  (if r.outputPathChecked && OutputPathNotADirectory c then ["OutputPathNotADirectory"] else []) ++
+  (if r.runNumberBounded && RunNumberOutOfRange c then ["RunNumberOutOfRange"] else []) ++
+  (if r.concurrencyCapped && ConcurrencyOutOfRange c then ["ConcurrencyOutOfRange"] else []) ++
+  (if r.cpuProfilePathChecked && CpuProfilePathNotCreatable c then ["CpuProfilePathNotCreatable"] else [])
 
 /-- a finding whose failure site every run reaches (a limit between the two zone borders depends
 on the random initialisation: it MAY end the run) -/
